@@ -31,6 +31,7 @@ FLOORS = {
     'C16.E2.producers': 6,
     'C16.E4.sites': 4,
     'C17.K1.composites': 6,
+    'C04.M0.ops': 14,
     'C17.K3.bodies': 40,
 }
 
